@@ -316,6 +316,13 @@ func (progBldr *ProgBuilder) CodePathOper(elem int) {
 		// not implemented
 	case '/':
 		pathOperPush = func(ctx *context) {
+			if ctx.predicateCount > 0 {
+				// Inside a predicate the current path is a copy of the
+				// path being filtered; an absolute path starts afresh at
+				// the root instead of being appended to that copy.
+				_ = ctx.actualPathStack.PopPath()
+				ctx.actualPathStack.NewPathFromCurrent()
+			}
 			ctx.actualPathStack.PeakPath().SetIsRootBased(true)
 			//ctx.actualPathStack.PushElem("/")
 		}
